@@ -5,6 +5,7 @@ import (
 	"go/constant"
 	"go/token"
 	"go/types"
+	"sort"
 	"strings"
 
 	"golang.org/x/tools/go/ssa"
@@ -28,6 +29,7 @@ func c09(c *Ctx) {
 	c09dispatch(c)
 	c09options(c)
 	c09untouchedPath(c)
+	c09ownedVars(c)
 }
 
 func strConst(p *px.Path, s *px.Sym) (string, bool) {
@@ -891,4 +893,44 @@ func fromOuterParam(s *px.Sym, f *ssa.Function) bool {
 		}
 	}
 	return false
+}
+
+// c09ownedVars (R8, round 5): the variables delivered to a handler belong to that request for as long as the handler
+// (or anything it started) may look at them. Every map stored into search.Result.Params anywhere in the module is a
+// map made by that search (make(map…)) or nil — not one taken from a pool or a package-level variable — so nothing
+// can clear or refill it once the router has returned (a handler still running after a timeout, a goroutine holding
+// the request, would read another request's variables: seed r5-C09-1).
+func c09ownedVars(c *Ctx) {
+	rule := "C09.R8"
+	var bad []string
+	sites := 0
+	for _, pk := range c.P.Pkgs {
+		rel := strings.TrimPrefix(pk.PkgPath, mod)
+		for _, f := range c.P.AllFuncs(rel) {
+			for _, b := range f.Blocks {
+				for _, ins := range b.Instrs {
+					st, ok := ins.(*ssa.Store)
+					if !ok {
+						continue
+					}
+					fa, ok := st.Addr.(*ssa.FieldAddr)
+					if !ok || fieldNameOf(fa) != "Params" || !strings.HasSuffix(typeString(fa.X.Type()), searchPkg+".Result") {
+						continue
+					}
+					sites++
+					for _, d := range reachingDefs(st.Val, f, 0) {
+						switch x := d.(type) {
+						case *ssa.MakeMap:
+						case *ssa.Const:
+						default:
+							_ = x
+							bad = append(bad, fmt.Sprintf("%s: %s stores into Result.Params a map that is not made by this search (%s): it can be recycled or shared while a handler still reads it", c.P.Pos(st.Pos()), funcDisplay(f), describeDef(c, d)))
+						}
+					}
+				}
+			}
+		}
+	}
+	sort.Strings(bad)
+	c.R.Check(len(bad) == 0 && sites >= 1, rule, searchPkg+".Result.Params#owned", "the path-variable map of a search result is a map made by that search (or nil), never a pooled or shared one", "-", fmt.Sprintf("%d stores; %s", sites, strings.Join(bad, "; ")), bad, sites)
 }
